@@ -7,12 +7,18 @@ Three layers of statement:
   missing-node / missing-child failure names the message's own node / child and leaves the registry
   untouched; a rejected line changes nothing;
 * for every message: only the record of the node it is from can change (or a placeholder be added);
-* per kind of report: the registry after the handler, as an explicit update of the registry before.
+* per kind of report: the registry after the handler, as an explicit update of the registry before;
+* over histories: the handler model refines the abstract registry specification
+  (`Model/RegistrySpec.lean`, a pure function of the received lines): `registry_refines_spec` per
+  operation — every line, environment, write-fault schedule, buffer content — and
+  `history_refines_spec` by induction; from it `registry_independent_of_faults_and_buffers` and
+  `value_is_last_set` (the stored value is the payload of the last set, over any history).
 -/
 import AioMySensors.Lemmas.Faithful
 import AioMySensors.Properties.C11
 import AioMySensors.Properties.C07
 import AioMySensors.Lemmas.Safe
+import AioMySensors.Lemmas.RegistrySpec
 
 namespace AioMySensors.C04
 open AioMySensors M
@@ -310,5 +316,332 @@ theorem config_time_through_dispatch (env : Env) (v : Ver) (m : Msg) (w : W) (hc
 /-! Non-vacuity: the F6 witness — node 7 without child 4. -/
 example : errOf (hSet ⟨7, 4, 1, 0, 0, ['1']⟩ { st := { nodes := [(7, { ntype := 17, pv := [] })] } }).1
     = some (.lib (.missingChild 4)) := by decide
+
+/-! ### Refinement: the registry after any history is the specification's -/
+
+theorem stepOp_recv_st (st : St) (env : Env) (line : Str) (faults : List Bool) :
+    (stepOp st (.recv env line faults)).1 = (recv env line { st := st, faults := faults }).2.st := by
+  simp only [stepOp]; split <;> simp [*]
+
+theorem stepOp_send_st (st : St) (obj : Option Msg) (b : Bool) (faults : List Bool) :
+    (stepOp st (.send obj b faults)).1 = (apiSend obj b { st := st, faults := faults }).2.st := by
+  simp only [stepOp]; split <;> simp [*]
+
+/-- One iteration of `listen`, in any world (any fault schedule, any earlier writes). -/
+theorem recv_refines_spec (env : Env) (line : Str) (w : W) :
+    (recv env line w).2.st.abs = specStep w.st.abs (.recv env line w.faults) := by
+  simp only [recv, M.bind, M.getSt, specStep]
+  show _ = match decode w.st.proto line with | some m => Spec.message w.st.abs m | none => w.st.abs
+  cases decode w.st.proto line with
+  | none => rfl
+  | some m => exact dispatch_abs env w.st.proto m w rfl
+
+/-- `gateway.send` changes neither registry nor protocol. -/
+theorem send_refines_spec (obj : Option Msg) (b : Bool) (w : W) : (apiSend obj b w).2.st.abs = w.st.abs := by
+  cases obj with
+  | none => rfl
+  | some m => exact gwSend_abs m b w
+
+/-- **The handler model refines the registry specification**, one operation at a time: for every
+state (any contents of both buffers, version known or unknown), every received line with its
+environment and every send call, under every write-fault schedule, the registry and the active
+protocol after the operation are `specStep` of the registry and protocol before — a function of the
+decoded message alone. -/
+theorem registry_refines_spec (st : St) (op : Op) : (stepOp st op).1.abs = specStep st.abs op := by
+  cases op with
+  | recv env line faults => rw [stepOp_recv_st]; exact recv_refines_spec env line _
+  | send obj b faults => rw [stepOp_send_st]; exact send_refines_spec obj b _
+
+theorem stateAfter_cons (st : St) (op : Op) (ops : List Op) :
+    stateAfter st (op :: ops) = stateAfter (stepOp st op).1 ops := by
+  simp [stateAfter, run]
+
+theorem stateAfter_append (st : St) (a b : List Op) : stateAfter st (a ++ b) = stateAfter (stateAfter st a) b := by
+  induction a generalizing st with
+  | nil => simp [stateAfter, run]
+  | cons op a ih => simp only [List.cons_append, stateAfter_cons, ih]
+
+/-- **… and so over every history**: the registry after any sequence of received lines and send
+calls, with any faults, is the specification's fold over the operations. -/
+theorem history_refines_spec (st : St) (ops : List Op) : (stateAfter st ops).abs = specRun st.abs ops := by
+  induction ops generalizing st with
+  | nil => simp [stateAfter, run, specRun]
+  | cons op ops ih => rw [stateAfter_cons, ih, registry_refines_spec]; rfl
+
+
+/-- What the specification looks at in an operation: the received line, or nothing for a send. -/
+def opLine : Op → Option Str
+  | .recv _ line _ => some line
+  | .send _ _ _ => none
+
+theorem specStep_of_opLine (s : SpecSt) (op op' : Op) (h : opLine op = opLine op') : specStep s op = specStep s op' := by
+  cases op <;> cases op' <;> simp only [opLine, Option.some.injEq, reduceCtorEq] at h
+  · subst h; rfl
+  · rfl
+
+/-- **Registry and protocol after a history depend on the received lines alone**: two runs from
+states with the same registry and protocol — whatever their buffers, markers and reported version
+strings — fed the same lines, with any sends in between, under any environments and any write-fault
+schedules, end with the same registry and protocol. -/
+theorem registry_independent_of_faults_and_buffers (st1 st2 : St) (ops1 ops2 : List Op) (h : st1.abs = st2.abs)
+    (hops : ops1.map opLine = ops2.map opLine) : (stateAfter st1 ops1).abs = (stateAfter st2 ops2).abs := by
+  rw [history_refines_spec, history_refines_spec, h]
+  generalize st2.abs = s
+  induction ops1 generalizing ops2 s with
+  | nil => cases ops2 with
+    | nil => rfl
+    | cons _ _ => simp at hops
+  | cons op ops ih =>
+    cases ops2 with
+    | nil => simp at hops
+    | cons op' ops' =>
+      simp only [List.map_cons, List.cons.injEq] at hops
+      simp only [specRun, List.foldl_cons]
+      rw [specStep_of_opLine s op op' hops.1]
+      exact ih ops' hops.2 _
+
+/-! ### The stored value is the payload of the last set -/
+
+/-- The value stored in a node record for (child, value type). -/
+def nodeValue (node : Node) (c t : Int) : Option Str := (node.children.get? c).bind fun child => child.values.get? t
+
+/-- The value the registry holds for the key (node, child, value type). -/
+def storedValue (nodes : PDict Int Node) (k : Key) : Option Str := (nodes.get? k.1).bind fun node => nodeValue node k.2.1 k.2.2
+
+/-- The messages that may change or remove the value stored under `k`: a set for the same key, a
+presentation of that node, a presentation of that child. -/
+def Disturbs (k : Key) (m : Msg) : Prop :=
+  m.node = k.1 ∧ ((m.cmd = Gen.cmdSet ∧ m.child = k.2.1 ∧ m.type = k.2.2) ∨
+    (m.cmd = Gen.cmdPresentation ∧ (m.child = Gen.systemChildId ∨ m.child = k.2.1)))
+
+theorem storedValue_set_ne (nodes : PDict Int Node) (id : Int) (n : Node) (k : Key) (h : k.1 ≠ id) :
+    storedValue (nodes.set id n) k = storedValue nodes k := by
+  unfold storedValue; rw [PDict.get?_set_ne _ _ h]
+
+theorem storedValue_updNode (s : SpecSt) (id : Int) (f : Node → Option Node) (k : Key)
+    (hf : ∀ node node', f node = some node' → id = k.1 → nodeValue node' k.2.1 k.2.2 = nodeValue node k.2.1 k.2.2) :
+    storedValue (Spec.updNode s id f).nodes k = storedValue s.nodes k := by
+  cases hn : s.nodes.get? id with
+  | none => rw [updNode_none _ _ _ hn]
+  | some node =>
+    rw [updNode_some _ _ _ node hn]
+    cases hfn : f node with
+    | none => rfl
+    | some node' =>
+      simp only []
+      by_cases hk : k.1 = id
+      · unfold storedValue
+        rw [hk, PDict.get?_set_self, hn]
+        exact hf node node' hfn hk.symm
+      · exact storedValue_set_ne _ _ _ _ hk
+
+theorem versionReport_nodes (s : SpecSt) (p : Str) : (Spec.versionReport s p).nodes = s.nodes := by
+  unfold Spec.versionReport; split <;> rfl
+
+/-- In the specification: a message that does not disturb the key leaves its stored value in place. -/
+theorem message_keeps_value (s : SpecSt) (m : Msg) (k : Key) (p : Str) (h : storedValue s.nodes k = some p)
+    (hd : ¬ Disturbs k m) : storedValue (Spec.message s m).nodes k = some p := by
+  rw [← h]
+  unfold Spec.message
+  split
+  · next h0 =>
+    -- presentation
+    unfold Spec.presentation
+    split
+    · next hc =>
+      have hne : k.1 ≠ m.node := fun e => hd ⟨e.symm, Or.inr ⟨h0, Or.inl hc⟩⟩
+      simp only []
+      split
+      · rw [versionReport_nodes]; exact storedValue_set_ne _ _ _ _ hne
+      · exact storedValue_set_ne _ _ _ _ hne
+    · refine storedValue_updNode _ _ _ _ fun node node' hf hid => ?_
+      simp only [Option.some.injEq] at hf; subst hf
+      have hne : k.2.1 ≠ m.child := fun e => hd ⟨hid, Or.inr ⟨h0, Or.inr e.symm⟩⟩
+      simp only [nodeValue]; rw [PDict.get?_set_ne _ _ hne]
+  · split
+    · next _ h1 =>
+      -- set
+      unfold Spec.setReport
+      refine storedValue_updNode _ _ _ _ fun node node' hf hid => ?_
+      cases hc : node.children.get? m.child with
+      | none => simp [hc] at hf
+      | some child =>
+        simp only [hc, Option.map_some, Option.some.injEq] at hf; subst hf
+        simp only [nodeValue]
+        by_cases hck : k.2.1 = m.child
+        · have hne : k.2.2 ≠ m.type := fun e => hd ⟨hid, Or.inl ⟨h1, hck.symm, e.symm⟩⟩
+          rw [hck, PDict.get?_set_self, hc]
+          simp only [Option.bind_some]
+          rw [PDict.get?_set_ne _ _ hne]
+        · rw [PDict.get?_set_ne _ _ hck]
+    · split
+      · -- internal
+        unfold Spec.internal
+        repeat' split
+        all_goals first
+          | rfl
+          | exact congrArg (storedValue · k) (versionReport_nodes _ _)
+          | (refine storedValue_updNode _ _ _ _ fun node node' hf hid => ?_
+             first
+             | (simp only [Option.some.injEq] at hf; subst hf; rfl)
+             | (simp only [Option.map_eq_some_iff] at hf; obtain ⟨_, _, rfl⟩ := hf; first | rfl | (split <;> rfl)))
+          | skip
+        -- id request: the next free id is not a registered one
+        refine storedValue_set_ne _ _ _ _ fun e => ?_
+        have hf := C11.nextId_fresh s.nodes
+        rw [← e] at hf
+        unfold storedValue at h
+        simp only [PDict.has] at hf
+        cases hg : s.nodes.get? k.1 with
+        | none => rw [hg] at h; simp at h
+        | some n => rw [hg] at hf; simp at hf
+      · rfl
+
+
+/-- An operation that leaves the value under `k` alone: a send, or a received line that — decoded
+under the protocol active when it arrives — is rejected or is not a disturbing message. -/
+def QuietOp (k : Key) (s : SpecSt) : Op → Prop
+  | .recv _ line _ => ∀ m', decode s.proto line = some m' → ¬ Disturbs k m'
+  | .send _ _ _ => True
+
+/-- No operation of the history disturbs `k`; each line is judged under the protocol active at
+that point of the history (the protocol may change on the way). -/
+def Undisturbed (k : Key) : SpecSt → List Op → Prop
+  | _, [] => True
+  | s, op :: ops => QuietOp k s op ∧ Undisturbed k (specStep s op) ops
+
+theorem specStep_keeps_value (s : SpecSt) (op : Op) (k : Key) (p : Str) (h : storedValue s.nodes k = some p)
+    (hq : QuietOp k s op) : storedValue (specStep s op).nodes k = some p := by
+  cases op with
+  | send _ _ _ => exact h
+  | recv env line faults =>
+    simp only [specStep]
+    cases hd : decode s.proto line with
+    | none => exact h
+    | some m' => exact message_keeps_value s m' k p h (hq m' hd)
+
+theorem specRun_keeps_value (s : SpecSt) (ops : List Op) (k : Key) (p : Str) (h : storedValue s.nodes k = some p)
+    (hq : Undisturbed k s ops) : storedValue (specRun s ops).nodes k = some p := by
+  induction ops generalizing s with
+  | nil => exact h
+  | cons op ops ih => exact ih _ (specStep_keeps_value s op k p h hq.1) hq.2
+
+/-- In the specification: a set message for a registered child of a registered node stores its payload. -/
+theorem message_stores_value (s : SpecSt) (m : Msg) (hset : m.cmd = Gen.cmdSet) (node : Node) (child : Child)
+    (hn : s.nodes.get? m.node = some node) (hc : node.children.get? m.child = some child) :
+    storedValue (Spec.message s m).nodes m.key = some m.payload := by
+  have h0 : ¬ m.cmd = Gen.cmdPresentation := by rw [hset]; decide
+  unfold Spec.message
+  rw [if_neg h0, if_pos hset]
+  unfold Spec.setReport
+  rw [updNode_some _ _ _ node hn]
+  simp only [hc, Option.map_some, storedValue, Msg.key, PDict.get?_set_self, Option.bind_some, nodeValue]
+
+/-- **The stored value is the payload of the last set.**  Take any history
+`pre ++ [line] ++ post` from any state, with any environments and write-fault schedules, where
+`line` decodes (under the protocol active after `pre`) to a set message `m` for a node and child
+registered at that point, and no later operation disturbs the key of `m` — sends are allowed, and so
+is any traffic except, from the same node, a set for the same (child, value type), a presentation
+of the node, or a presentation of that child.  Then the registry at the end holds `m.payload` under
+(`m.node`, `m.child`, `m.type`). -/
+theorem value_is_last_set (st : St) (pre post : List Op) (env : Env) (line : Str) (faults : List Bool) (m : Msg)
+    (hd : decode (stateAfter st pre).proto line = some m) (hset : m.cmd = Gen.cmdSet)
+    (hknown : ∃ node child, (stateAfter st pre).nodes.get? m.node = some node ∧ node.children.get? m.child = some child)
+    (hpost : Undisturbed m.key (stateAfter st (pre ++ [.recv env line faults])).abs post) :
+    storedValue (stateAfter st (pre ++ .recv env line faults :: post)).nodes m.key = some m.payload := by
+  obtain ⟨node, child, hn, hc⟩ := hknown
+  have e : pre ++ Op.recv env line faults :: post = (pre ++ [Op.recv env line faults]) ++ post := by simp
+  rw [e, stateAfter_append]
+  generalize hmid : stateAfter st (pre ++ [Op.recv env line faults]) = mid at hpost ⊢
+  have hmidv : storedValue mid.nodes m.key = some m.payload := by
+    have : mid.abs = Spec.message (stateAfter st pre).abs m := by
+      rw [← hmid, stateAfter_append, stateAfter_cons]
+      show (stateAfter _ []).abs = _
+      have : ∀ s : St, stateAfter s [] = s := fun _ => rfl
+      rw [this, registry_refines_spec]
+      show (match decode (stateAfter st pre).proto line with
+        | some m => Spec.message (stateAfter st pre).abs m | none => (stateAfter st pre).abs) = _
+      rw [hd]
+    show storedValue mid.abs.nodes m.key = _
+    rw [this]
+    exact message_stores_value _ m hset node child hn hc
+  have := specRun_keeps_value mid.abs post m.key m.payload hmidv hpost
+  rw [← history_refines_spec] at this
+  exact this
+
+/-- A received line that is not from node `n`, whichever protocol decodes it. -/
+def NotFrom (n : Int) : Op → Prop
+  | .recv _ line _ => ∀ v m', decode v line = some m' → m'.node ≠ n
+  | .send _ _ _ => True
+
+theorem undisturbed_of_notFrom (k : Key) (ops : List Op) (h : ∀ op ∈ ops, NotFrom k.1 op) (s : SpecSt) :
+    Undisturbed k s ops := by
+  induction ops generalizing s with
+  | nil => trivial
+  | cons op ops ih =>
+    refine ⟨?_, ih (fun o ho => h o (List.mem_cons_of_mem _ ho)) _⟩
+    have := h op (List.mem_cons_self)
+    cases op with
+    | send _ _ _ => trivial
+    | recv env line faults => exact fun m' hm' hdist => this s.proto m' hm' hdist.1
+
+/-- The same with the simpler side condition of the property text: after the set, no received line
+is from node `m.node` (sends and traffic from other nodes are allowed, with any faults). -/
+theorem value_is_last_set_from_node (st : St) (pre post : List Op) (env : Env) (line : Str) (faults : List Bool) (m : Msg)
+    (hd : decode (stateAfter st pre).proto line = some m) (hset : m.cmd = Gen.cmdSet)
+    (hknown : ∃ node child, (stateAfter st pre).nodes.get? m.node = some node ∧ node.children.get? m.child = some child)
+    (hpost : ∀ op ∈ post, NotFrom m.node op) :
+    storedValue (stateAfter st (pre ++ .recv env line faults :: post)).nodes m.key = some m.payload :=
+  value_is_last_set st pre post env line faults m hd hset hknown (undisturbed_of_notFrom m.key post hpost _)
+
+
+/-! ### Non-vacuity
+
+The specification computes: node 7 presents itself and child 4, then reports a value (evaluated in
+the specification — small closed terms, no handler runs); a gateway presentation switches the
+protocol; an id request registers the placeholder. -/
+def exPre : List Op :=
+  [.recv {} "7;255;0;0;17;2.0\n".toList [], .send none true [true], .recv {} "7;4;0;0;6;temp\n".toList [true, true]]
+
+def exNode (values : PDict Int Str) : Node :=
+  { ntype := 17, pv := "2.0".toList, children := [(4, ⟨4, 6, "temp".toList, values⟩)] }
+
+example : specRun {} exPre = ⟨.v14, [(7, exNode [])]⟩ := by decide
+example : specRun {} (exPre ++ [.recv {} "7;4;1;0;0;21.5\n".toList [true]]) = ⟨.v14, [(7, exNode [(0, "21.5".toList)])]⟩ := by
+  decide
+example : specRun {} [.recv {} "0;255;0;0;18;2.2.0\n".toList [], .recv {} "255;255;3;0;3;\n".toList [true]] =
+    ⟨.v22, [(0, { ntype := 18, pv := "2.2.0".toList }), (1, placeholderNode)]⟩ := by decide
+
+example : Disturbs (7, 4, 0) ⟨7, 4, 1, 0, 0, ['1']⟩ ∧ Disturbs (7, 4, 0) ⟨7, 255, 0, 0, 17, []⟩ ∧
+    ¬ Disturbs (7, 4, 0) ⟨7, 4, 1, 0, 1, ['1']⟩ ∧ ¬ Disturbs (7, 4, 0) ⟨7, 255, 3, 0, 0, ['5', '0']⟩ ∧
+    ¬ Disturbs (7, 4, 0) ⟨7, 5, 0, 0, 6, []⟩ := by
+  simp [Disturbs, Gen.cmdSet, Gen.cmdPresentation, Gen.systemChildId]
+
+theorem notFrom_example : NotFrom 7 (.recv {} "8;255;0;0;17;2.0\n".toList [true]) := by
+  intro v m' h
+  have : decode v "8;255;0;0;17;2.0\n".toList = some ⟨8, 255, 0, 0, 17, "2.0".toList⟩ := by cases v <;> decide
+  rw [this] at h; cases h; decide
+section
+attribute [local irreducible] stateAfter
+
+theorem abs_proto (st : St) : st.abs.proto = st.proto := rfl
+theorem abs_nodes (st : St) : st.abs.nodes = st.nodes := rfl
+
+/-- The hypotheses of `value_is_last_set_from_node` on a concrete history with failing writes and a send in
+between (the model's history is never evaluated: its registry is read off the specification). -/
+example : storedValue (stateAfter {} (exPre ++ .recv {} "7;4;1;0;0;21.5\n".toList [true] ::
+      [.send (some ⟨7, 4, 1, 0, 0, ['9']⟩) true [true], .recv {} "8;255;0;0;17;2.0\n".toList [true]])).nodes (7, 4, 0)
+    = some "21.5".toList := by
+  have hpre : (stateAfter {} exPre).abs = ⟨.v14, [(7, exNode [])]⟩ := by rw [history_refines_spec]; decide
+  refine value_is_last_set_from_node {} exPre _ {} _ [true] ⟨7, 4, 1, 0, 0, "21.5".toList⟩ ?_ rfl ?_ ?_
+  · rw [← abs_proto, hpre]; decide
+  · refine ⟨exNode [], ⟨4, 6, "temp".toList, []⟩, ?_, by decide⟩
+    rw [← abs_nodes, hpre]; decide
+  · intro op hop
+    simp only [List.mem_cons, List.not_mem_nil, or_false] at hop
+    rcases hop with rfl | rfl
+    · trivial
+    · exact notFrom_example
+end
 
 end AioMySensors.C04
